@@ -34,6 +34,7 @@ class RandomTap:
         self.fallbacks = Counter()
         self.other = Counter()
         self.recent_bits = {}
+        self.pending_random = None
         self.reseeds = []
 
     # -- helpers ---------------------------------------------------------------------
@@ -125,6 +126,10 @@ class RandomTap:
 
     def random(self):
         v = self._next("random")
+        if v is None and self.pending_random is not None:
+            # a one-shot forced outcome armed by a monitor for the draw that belongs to the call it is watching
+            v, self.pending_random = self.pending_random, None
+            self.other["forced_random"] += 1
         if v is None:
             p = self.preset.get("random")
             if p == "zero":
